@@ -2,6 +2,7 @@
    6.5.8/9/13/14 (comparison and logical operators have type int; bool in C++), 6.5.15 (conditional),
    6.4.4.1 (type of an integer constant), over an arbitrary assignment of widths.  Independent of the model. *)
 From Coq Require Import NArith Bool List.
+Import ListNotations.
 Local Open Scope N_scope.
 
 Inductive ctype := CBool | CSChar | CUChar | CChar | CShort | CUShort | CInt | CUInt | CLong | CULong | CLLong | CULLong.
